@@ -350,6 +350,7 @@ func (w *World) Stats() *stats.World {
 // moved between archetypes when adding or removing components.
 // However, it might be useful in memory-constrained environments e.g. after initialization.
 func (w *World) Shrink(stopAfter ...time.Duration) bool {
+	w.checkLocked()
 	if len(stopAfter) > 1 {
 		panic("no more than one time limit stopAfter can be given")
 	}
